@@ -102,6 +102,20 @@ func orderCritical(r *engine.Run, w *engine.LockWorld) {
 		if f == nil {
 			continue
 		}
+		// the critical section may live in a helper that exists only for this operation
+		// (validation in the exported method, locking and the walk in the helper): then the
+		// exported method must not look at the root itself, and the helper is what is judged
+		if !takesTrieLock(f) && !touchesRootField(f) {
+			var cand []*ssa.Function
+			for _, h := range opGroup(r, f)[1:] {
+				if takesTrieLock(h) {
+					cand = append(cand, h)
+				}
+			}
+			if len(cand) == 1 {
+				f = cand[0]
+			}
+		}
 		// exactly one Lock on the trie mutex; unlock only by defer; all root
 		// accesses (direct or through callees) after it
 		var locks []ssa.Instruction
@@ -391,6 +405,33 @@ func readsField(g *ssa.Function, name string) bool {
 	engine.Instrs(g, func(in ssa.Instruction) {
 		if fa, ok := in.(*ssa.FieldAddr); ok && len(g.Params) > 0 && fa.X == ssa.Value(g.Params[0]) {
 			if fld := engine.FieldOf(fa); fld != nil && fld.Name() == name {
+				found = true
+			}
+		}
+	})
+	return found
+}
+
+func takesTrieLock(g *ssa.Function) bool {
+	found := false
+	engine.Instrs(g, func(in ssa.Instruction) {
+		if c, ok := in.(*ssa.Call); ok {
+			if sc := c.Call.StaticCallee(); sc != nil && sc.Name() == "Lock" && len(c.Call.Args) > 0 && engine.MutexKey(c.Call.Args[0]) == "MerklePatriciaTrie.mutex" {
+				found = true
+			}
+		}
+	})
+	return found
+}
+
+func touchesRootField(g *ssa.Function) bool {
+	found := false
+	engine.Instrs(g, func(in ssa.Instruction) {
+		if fa, ok := in.(*ssa.FieldAddr); ok && isNamed(fa.X.Type(), pkgUtil, "MerklePatriciaTrie") && engine.FieldOf(fa).Name() == "root" {
+			found = true
+		}
+		if c, ok := in.(*ssa.Call); ok {
+			if sc := c.Call.StaticCallee(); sc != nil && recvNamed(sc) == "MerklePatriciaTrie" && sc.Object() != nil && sc.Object().Exported() && readsField(sc, "root") && sc.Name() != "Delete" && sc.Name() != "Insert" {
 				found = true
 			}
 		}
